@@ -115,11 +115,13 @@ class Destinations(object):
                 self._send(message, logger)
 
     def _send(self, message, logger):
-        message.update(self._globalFields)
-        errors = []
+        # (looked at before the global fields are merged in: a global field
+        # named message_type must not hide that this is a failure report)
         is_destination_error_message = (
             message.get("message_type", None) == DESTINATION_FAILURE
         )
+        message.update(self._globalFields)
+        errors = []
         # (a copy: a destination may be removed, e.g. by itself, while the
         # message is being delivered, and removing from the list being
         # iterated over would make the next destination miss the message)
